@@ -216,6 +216,37 @@ def _rate_violation(M, v0, ests):
     return None
 
 
+def _vec_rate_violation(M, v0, k, v):
+    """C17_power_vector_converges on the real code: the returned vector has unit length and its squared distance from the
+    dominant eigenspace is at most r^(2k) C  (same spectral data as `_rate_violation`)"""
+    Mr = G.realview_mat(M)
+    v0 = G.realview_vec(v0)
+    v = G.realview_vec(v)
+    n = Mr.shape[1]
+    _, S, Vt = np.linalg.svd(Mr)
+    lam = np.zeros(n)
+    lam[: len(S)] = S ** 2
+    if lam[0] <= 0 or not np.all(np.isfinite(v)):
+        return None
+    top = lam >= lam[0] * (1 - 1e-9)
+    rest = lam[~top]
+    if rest.size and not rest.max() < lam[0] * (1 - 1e-6):
+        return None
+    r = float(rest.max() / lam[0]) if rest.size else 0.0
+    head0 = float(sum((Vt[i] @ v0) ** 2 for i in range(n) if top[i]))
+    if head0 <= 1e-12 * float(v0 @ v0):
+        return None
+    C = max(float(v0 @ v0) - head0, 0.0) / head0
+    nv = float(v @ v)
+    if abs(nv - 1.0) > 1e-9:
+        return {"why": "returned vector is not a unit vector", "maxiter": k, "|v|^2": nv}
+    dist = nv - float(sum((Vt[i] @ v) ** 2 for i in range(n) if top[i]))
+    if dist > r ** (2 * k) * C + 1e-9:
+        return {"why": "returned vector is farther from the top eigenspace than the proved bound r^(2k) C", "maxiter": k,
+                "distance^2": dist, "bound": r ** (2 * k) * C, "r": r, "C": C}
+    return None
+
+
 def _factor_arg(f):
     return {} if f == "default" else {"factor": f}
 
@@ -393,7 +424,18 @@ def oracle_sidnorm(case):
     return None
 
 
-ORACLES = {"opnorm": oracle_opnorm, "power": oracle_opnorm, "pdhg": oracle_pdhg, "padmm": oracle_padmm,
+def oracle_power_vector(case):
+    from scico.linop import power_iteration
+
+    A = G.linear_of(case["desc"])
+    M = G.dense(case["desc"])
+    r = _impl(lambda: power_iteration(A.H @ A, maxiter=case["budget"], key=G.make_key(case.get("key"))))
+    if r[0] == "err":
+        return {"why": "power_iteration raised", "error": r[2]}
+    return _vec_rate_violation(M, G.start_vector(A, case.get("key")), case["budget"], np.asarray(r[1][1]))
+
+
+ORACLES = {"power-vector": oracle_power_vector, "opnorm": oracle_opnorm, "power": oracle_opnorm, "pdhg": oracle_pdhg, "padmm": oracle_padmm,
            "diagnorm": oracle_diagnorm, "sidnorm": oracle_sidnorm}
 
 
@@ -457,6 +499,10 @@ def check_estimates(ctx, model, desc, key, budgets, converged_check=False, base=
                          {"mu": b2f(m[1]["mu"]), "v": common.b2fs(m[1]["v"])}, oracle=oracle)
         if mu.real == 0.0:
             ctx.count("branch:zero-exit")
+        elif ok and np.all(np.isfinite(M)):
+            badv = _vec_rate_violation(M, G.start_vector(A, key), k, np.asarray(v))
+            if badv is not None:
+                ctx.disagree("estim.power.vector", {"what": "power-vector", "desc": desc, "key": key, "budget": k}, badv, None, oracle=oracle)
     # property oracle over the whole budget ladder (cheap: the same calls)
     bad = oracle_opnorm(case0)
     if bad is not None:
@@ -869,6 +915,10 @@ def run_case(ctx, model, case):
         r = oracle_nlpadmm(case)
         if r is not None:
             ctx.disagree("estim.nlpadmm.property", case, r, None, oracle=oracle)
+    elif w == "power-vector":
+        r = oracle_power_vector(case)
+        if r is not None:
+            ctx.disagree("estim.power.vector", case, r, None, oracle=oracle)
     elif w == "nonfinite":
         r = oracle_nonfinite(case)
         if r is not None:
